@@ -83,7 +83,7 @@ fn err_line(e: &AutosarDataError) -> Option<(usize, String)> {
 fn probe(input: &[u8]) -> Probe {
     let mut p = Probe::default();
     let lines = 1 + input.iter().filter(|c| **c == b'\n').count();
-    let mut check_line = |what: &str, e: &AutosarDataError, p: &mut Probe| {
+    let check_line = |what: &str, e: &AutosarDataError, p: &mut Probe| {
         if let Some((line, variant)) = err_line(e) {
             if line < 1 || line > lines {
                 p.problems.push((format!("line-out-of-range|{what}|{variant}"), format!("line {line} of {lines}")));
